@@ -53,10 +53,10 @@ theorem lastObserved_step (s : State) (op : Op) :
   | unbond o u bal d => exact Or.inl (core _ (unbond_core s o u bal d))
   | gov l d => exact Or.inl (core _ (gov_core s l d).1)
   | endBlock l r => exact Or.inl (core _ (endBlock_core s l r).1)
-  | exec n f =>
-    simp only [step]; unfold execStep
-    repeat' split
-    all_goals exact Or.inl rfl
+  | exec n o c =>
+    simp only [step]
+    obtain ⟨P, L, h⟩ := exec_frame s n o c
+    rw [h]; exact Or.inl rfl
 
 /-- the nonces of the observation log are exactly 1, 2, …, lastObserved, in this order: every history applies event
 nonces one at a time, in increasing order, without gaps -/
@@ -137,11 +137,11 @@ theorem lastNonce_monotone (s : State) (op : Op) (hk : Op.keepsLastNonce op = tr
     exact ⟨v, Nat.le_refl _, by simp only [step]; rw [unbond_lastNonce s o' u bal d hk']; exact hv⟩
   | gov l d => exact ⟨v, Nat.le_refl _, by simp only [step]; rw [(gov_core s l d).2]; exact hv⟩
   | endBlock l r => exact ⟨v, Nat.le_refl _, by simp only [step]; rw [(endBlock_core s l r).2]; exact hv⟩
-  | exec n f =>
+  | exec n o c =>
     refine ⟨v, Nat.le_refl _, ?_⟩
-    simp only [step]; unfold execStep
-    repeat' split
-    all_goals exact hv
+    simp only [step]
+    obtain ⟨P, L, h⟩ := exec_frame s n o c
+    rw [h]; exact hv
 
 /-- the hypothesis of the partial theorems: the tree keeps the per-oracle last nonce on unbond, or the history contains
 no unbond → re-bond of one oracle address (`noRebond`: no `BondedOracle` targets an oracle whose key an earlier
@@ -209,17 +209,59 @@ theorem pending_executes_once (p : Params) (ops : List Op) :
     have := hI.pendR n hn
     simp only [List.mem_range'_1, reach] at this ⊢; omega
 
-/-- a failing deferred execution leaves the whole state as it was (the entry deleted before the handler ran is restored),
-and a nonce that is not parked cannot be executed -/
-theorem exec_failure_restores (s : State) (n : Nat) : (step s (.exec n true)).1 = s := by
+/-- what the source says about `ExecuteClaim`: it looks the parked claim up and returns an error when there is none, it
+deletes the parked entry unconditionally, the deletion comes BEFORE every statement that calls a handler, and the
+precompile runs it inside a native action that is reverted when it returns an error.  `pending_executes_once` depends on
+this order (through `inv_exec`); with the deletion after the handler it is false, see `delete_after_handler_runs_twice`. -/
+theorem extracted_exec_order :
+    execChecksPending = true ∧ execDeletesPending = true ∧ execDeletesBeforeHandler = true ∧
+    execErrorRevertsNativeAction = true := by decide
+
+/-- a failing deferred execution leaves the whole state as it was (the entry deleted before the handler ran is restored
+together with everything the calls made from inside the handler did) — for EVERY forest of nested calls -/
+theorem exec_failure_restores (s : State) (n : Nat) (inner : Calls) : (step s (.exec n .fail inner)).1 = s := by
   simp only [step]; unfold execStep
   repeat' split
   all_goals first | rfl | simp_all
 
-theorem exec_needs_pending (s : State) (n : Nat) (f : Bool) (hok : (step s (.exec n f)).2 = .ok) : n ∈ s.pending := by
+theorem exec_needs_pending (s : State) (n : Nat) (o : Outcome) (inner : Calls) (hok : (step s (.exec n o inner)).2 = .ok) :
+    n ∈ s.pending := by
   simp only [step] at hok; unfold execStep at hok
-  repeat' split at hok
-  all_goals simp_all
+  have hc : execChecksPending = true := by decide
+  simp only [hc, Bool.true_and] at hok
+  split at hok
+  · simp at hok
+  · rename_i h; simpa using h
+
+/-- RE-ENTRANCY.  A call for a nonce that is not parked does nothing — whatever its outcome and whatever it would have
+called — and the calls after it proceed from the unchanged state. -/
+theorem call_not_parked_noop (df : Bool) (p : Px) (n : Nat) (o : Outcome) (inner next : Calls) (hn : n ∉ p.pending) :
+    execCallsWith df p (.call n o inner next) = execCallsWith df p next := by
+  have hc : execChecksPending = true := by decide
+  rw [execCallsWith]
+  simp [hc, hn]
+
+/-- In the order of the source (entry deleted before the handler runs) no forest of calls ever parks a nonce: a nonce
+that is not parked stays not parked through every nested / failing / refunded call. -/
+theorem not_parked_stays (p : Px) (c : Calls) (n : Nat) (hn : n ∉ p.pending) : n ∉ (execCallsWith true p c).pending :=
+  fun h => hn (execCalls_pending_subset c p n h)
+
+/-- Hence, while the handler of nonce `n` is running, EVERY `executeClaim(n)` issued from inside it — directly by the
+called-back contract or at any depth below, before or after other nested executions, refunds or failures — finds
+nothing and has no effect: after any forest `c1` the re-entrant call is skipped. -/
+theorem reentrant_call_has_no_effect (p : Px) (n : Nat) (hp : n ∈ p.pending) (c1 : Calls) (o : Outcome) (inner next : Calls) :
+    let entered : Px := { pending := delPending p.pending n, log := p.log ++ [n] }
+    let mid := execCallsWith true entered c1
+    execCallsWith true mid (.call n o inner next) = execCallsWith true mid next := by
+  intro entered mid
+  refine call_not_parked_noop true mid n o inner next ?_
+  exact not_parked_stays entered c1 n (not_mem_delPending (by decide) _ _)
+
+/-- the order matters: with the parked entry deleted AFTER the handler (as in `execCallsWith false`) a contract that calls
+`executeClaim(1)` from inside the handler of nonce 1 makes the effects of nonce 1 run twice -/
+theorem delete_after_handler_runs_twice (h1 : execChecksPending = true) (h2 : execDeletesPending = true) :
+    (execCallsWith false { pending := [1], log := [] } (.call 1 .ok (.call 1 .ok .nil .nil) .nil)).log = [1, 1] := by
+  revert h1 h2; decide
 
 /-! ## 5. only the bridger of an online registered oracle gets a claim accepted -/
 
@@ -241,7 +283,7 @@ def demo : List Op :=
     .claim 102 102 1 1 .pending 1001,       -- competing hash for nonce 1
     .claim 101 101 2 0 .other 1002,         -- oracle 1 is ahead: nonce 2 gets a vote before nonce 1 is observed
     .claim 103 103 1 0 .pending 1001,       -- 34 + 33 = 67 ≥ 66: nonce 1 observed
-    .exec 1 true, .exec 1 false, .exec 1 false,
+    .exec 1 .fail .nil, .exec 1 .ok (.call 1 .ok .nil .nil), .exec 1 .ok .nil,
     .claim 102 102 2 0 .other 1002,         -- 33 + 34 ≥ 66: nonce 2 observed
     .claim 103 103 2 0 .other 1002 ]        -- vote for an already observed attestation
 
@@ -252,5 +294,11 @@ example : NoRebond witnessParams demo := Or.inr (by decide)
 example (h : unbondDeletesLastNonce = true) : ¬ noRebond (init witnessParams) rebondWitness = true := by revert h; decide
 example : (reach witnessParams demo).atts.map (fun a => (a.nonce, a.hash, a.votes, a.observed)) =
     [(1, 0, [1, 3], true), (1, 1, [2], false), (2, 0, [1, 2, 3], true)] := by decide
+
+/-- nested executions: nonces 1..3 parked; executing 1 calls back a contract that re-enters 1 (nothing), executes 2 —
+whose contract executes 3 and then reverts (3 is parked again, 2 is consumed with a refund) — and executes 3 again -/
+example : execCallsWith true { pending := [1, 2, 3], log := [] }
+    (.call 1 .ok (.call 1 .ok .nil (.call 2 .refund (.call 3 .ok .nil .nil) (.call 3 .ok .nil .nil))) .nil) =
+    { pending := [], log := [1, 2, 3] } := by decide
 
 end FxVerif.Props.C01
